@@ -226,21 +226,29 @@ class FileInfo:
         prefix = self.vpk._dir_prefix
 
         if prefix is None:
-            self.start_data = data
-            self.arch_len = 0
-            return
+            # Singular VPKs have no numeric files, everything is stored in the file itself.
+            arch_index = None
 
-        self.start_data = data[:self.vpk.dir_limit]
-        arch_data = data[self.vpk.dir_limit:]
+        # The length of the data stored in the directory is a 16-bit value.
+        dir_limit = self.vpk.dir_limit
+        if dir_limit is None or dir_limit > 0xFFFF:
+            dir_limit = 0xFFFF
+        self.start_data = data[:dir_limit]
+        arch_data = data[dir_limit:]
 
         self.arch_len = len(arch_data)
 
         if self.arch_len:
             self.arch_index = arch_index
-            arch_file = get_arch_filename(prefix, arch_index)
-            with open(os.path.join(self.vpk.folder, arch_file), 'ab') as file:
-                self.offset = file.seek(0, os.SEEK_END)
-                file.write(arch_data)
+            if arch_index is None:
+                # Stored after the directory tree. This is kept in memory until the directory is written.
+                self.offset = len(self.vpk.footer_data)
+                self.vpk.footer_data += arch_data
+            else:
+                arch_file = get_arch_filename(prefix, arch_index)
+                with open(os.path.join(self.vpk.folder, arch_file), 'ab') as file:
+                    self.offset = file.seek(0, os.SEEK_END)
+                    file.write(arch_data)
         else:
             # Only stored in the main index
             self.arch_index = None
